@@ -196,6 +196,9 @@ func (c *AbstractTokenizer) ReadNextToken() *Token {
 	var token *Token = nil
 
 	for true {
+		// Forget the token skipped by the previous iteration
+		token = nil
+
 		// Read character
 		nextChar := c.Scanner.Peek()
 
